@@ -1083,6 +1083,107 @@ pub fn add_assign(octets: &mut [u8], other: &[u8]) {
     return add_assign_fallback(octets, other);
 }
 
+// Verification seam: calls each private kernel directly, so that code paths the runtime dispatch
+// never selects on a given host can still be exercised. Read-only with respect to library state.
+#[cfg(feature = "verif_hooks")]
+pub mod verif_kernels {
+    use super::*;
+
+    pub const KERNELS: [&str; 4] = ["avx512", "avx2", "ssse3", "fallback"];
+
+    pub fn supported(kernel: &str) -> bool {
+        #[cfg(any(target_arch = "x86", target_arch = "x86_64"))]
+        {
+            match kernel {
+                "avx512" => {
+                    return is_x86_feature_detected!("avx512f")
+                        && is_x86_feature_detected!("avx512bw");
+                }
+                "avx2" => {
+                    return is_x86_feature_detected!("avx2") && is_x86_feature_detected!("bmi1");
+                }
+                "ssse3" => return is_x86_feature_detected!("ssse3"),
+                _ => {}
+            }
+        }
+        kernel == "fallback"
+    }
+
+    pub fn add_assign_with(kernel: &str, octets: &mut [u8], other: &[u8]) {
+        assert!(supported(kernel));
+        #[cfg(any(target_arch = "x86", target_arch = "x86_64"))]
+        unsafe {
+            match kernel {
+                "avx512" => return add_assign_avx512(octets, other),
+                "avx2" => return add_assign_avx2(octets, other),
+                "ssse3" => return add_assign_ssse3(octets, other),
+                _ => {}
+            }
+        }
+        add_assign_fallback(octets, other)
+    }
+
+    pub fn mulassign_scalar_with(kernel: &str, octets: &mut [u8], scalar: &Octet) {
+        assert!(supported(kernel));
+        #[cfg(any(target_arch = "x86", target_arch = "x86_64"))]
+        unsafe {
+            match kernel {
+                "avx512" => return mulassign_scalar_avx512(octets, scalar),
+                "avx2" => return mulassign_scalar_avx2(octets, scalar),
+                "ssse3" => return mulassign_scalar_ssse3(octets, scalar),
+                _ => {}
+            }
+        }
+        mulassign_scalar_fallback(octets, scalar)
+    }
+
+    pub fn fma_with(kernel: &str, octets: &mut [u8], other: &[u8], scalar: &Octet) {
+        assert!(supported(kernel));
+        #[cfg(any(target_arch = "x86", target_arch = "x86_64"))]
+        unsafe {
+            match kernel {
+                "avx512" => return fused_addassign_mul_scalar_avx512(octets, other, scalar),
+                "avx2" => return fused_addassign_mul_scalar_avx2(octets, other, scalar),
+                "ssse3" => return fused_addassign_mul_scalar_ssse3(octets, other, scalar),
+                _ => {}
+            }
+        }
+        fused_addassign_mul_scalar_fallback(octets, other, scalar)
+    }
+
+    // "fallback" is the generic tail of fused_addassign_mul_scalar_binary (unpack, then the
+    // byte-wise kernels through their own dispatch)
+    pub fn fma_binary_with(
+        kernel: &str,
+        octets: &mut [u8],
+        other: &BinaryOctetVec,
+        scalar: &Octet,
+    ) {
+        assert!(supported(kernel));
+        assert_eq!(octets.len(), other.len());
+        if octets.is_empty() {
+            return;
+        }
+        #[cfg(any(target_arch = "x86", target_arch = "x86_64"))]
+        unsafe {
+            match kernel {
+                "avx512" => return fused_addassign_mul_scalar_binary_avx512(octets, other, scalar),
+                "avx2" => return fused_addassign_mul_scalar_binary_avx2(octets, other, scalar),
+                _ => {}
+            }
+        }
+        if *scalar == Octet::one() {
+            add_assign(octets, &other.to_octet_vec())
+        } else {
+            fused_addassign_mul_scalar(octets, &other.to_octet_vec(), scalar)
+        }
+    }
+
+    pub fn to_octet_vec(v: &BinaryOctetVec) -> Vec<u8> {
+        v.to_octet_vec()
+    }
+}
+
 #[cfg(feature = "std")]
 #[cfg(test)]
 mod tests {
